@@ -155,10 +155,12 @@ fn c04_ackparse_rejects_illformed() {
     // (d) the boundary: Largest=5, First=1, Gap=2, Range=0 -> ranges 4..=5 and 0..=0: legal
     let f = parse_all(&[0x05, 0x00, 0x01, 0x01, 0x02, 0x00]);
     assert!(f.is_well_formed() && well_formed(&f) == Some(0));
-    let mut it = f.iter();
-    let a = it.next().unwrap();
-    let b = it.next().unwrap();
-    assert!(*a.start() == 4 && *a.end() == 5 && *b.start() == 0 && *b.end() == 0 && it.next().is_none());
+    {
+        let mut it = f.iter();
+        let a = it.next().unwrap();
+        let b = it.next().unwrap();
+        assert!(*a.start() == 4 && *a.end() == 5 && *b.start() == 0 && *b.end() == 0 && it.next().is_none());
+    }
     core::mem::forget(f);
     kani::cover!(true, "all four witnesses decided");
 }
